@@ -90,6 +90,10 @@ def conditional_table():
         "Conditional(Gt(a + 1, b), a, b)", "Conditional(Gt(2 * a, 3), a, b)", "Conditional(Lt(-a, -1), a, b)",
         "ContinuousConditional(Gt(a, 1), b, c, 1)", "ContinuousConditional(Lt(a, 1), b, c, 0.5)", "ContinuousConditional(Ge(a, b), 1, 0, 2.0)",
         "ContinuousConditional(Le(a - b, 0.5), a, -a, 0.25)", "ContinuousConditional(Gt(t, 1), p, k, 1) * a",
+        # conditions that are tautologies / contradictions over the reals, nested and inside sums
+        "Conditional(Gt(a, 2), t, Conditional(Or(Gt(b, 1.5), Lt(b, 10.0)), 0.1, c)) + 7.5", "Conditional(Or(Gt(b, 1.5), Lt(b, 10.0)), 0.1, c) * a",
+        "Conditional(Gt(a, 2), t, Conditional(And(Gt(b, 10.0), Lt(b, 1.5)), 0.1, c)) + 7.5", "1 + Conditional(Lt(a, 1), Conditional(Or(Ge(b, 1), Lt(b, 1)), 2, 3), Conditional(And(Ge(c, 2), Lt(c, 2)), 4, 5))",
+        "Conditional(Or(Ge(a, 1.5), Lt(b, 1.5), Lt(c, 10.0)), t, Conditional(Or(Gt(c, 1.5), Lt(c, 10.0)), 0.1, a)) + 7.5",
         "ContinuousConditional(Gt(a, -40), b, c, 0.05)", "ContinuousConditional(Lt(a, 40), b, c, 0.05)", "exp(a - 800.0) * exp(800.0 - b)",
     ]
     return out
